@@ -20,6 +20,7 @@ func init() {
 			"R10.4 who may write IdleAt: a non-nil value only under len(Status)==0 ∧ IdleAt==nil, nil only under len(Status)!=0, the idle update runs after the status rebuild in UpdateTargets, and the runtime-info endpoint reports IdleAt unchanged in an object built by the reporting call itself (no cached report). " +
 			"R10.5 who may write ScrapeStatus.Series/TotalSeries: only the constructor and the scrape-result update of pkg/target (a kept entry keeps its measurements). " +
 			"R10.1 also: the handler hands the decoded request to the manager unchanged (no job removed or replaced before it is applied). " +
+			"R10.1 also covers a request object pre-filled before it is decoded. " +
 			"Not decided: values over update sequences (a reference-model comparison is a dynamic technique).",
 		Assumptions: []string{"go/types and go/ssa are correct"}})
 }
@@ -333,9 +334,18 @@ func runC10(p *engine.Prog, r *engine.Report) {
 					continue
 				}
 				n++
+				// the object itself: whatever is stored into the request variable's cell
+				alias := map[ssa.Value]bool{req: true}
+				if cell, ok := req.(*ssa.Alloc); ok {
+					for _, rr := range *cell.Referrers() {
+						if st, ok := rr.(*ssa.Store); ok && st.Addr == ssa.Value(cell) {
+							alias[st.Val] = true
+						}
+					}
+				}
 				isReqTargets := func(addr ssa.Value) bool {
 					fa, ok := addr.(*ssa.FieldAddr)
-					return ok && engine.FieldOf(fa) == fReqTargets && key(fa.X) == req
+					return ok && engine.FieldOf(fa) == fReqTargets && (alias[key(fa.X)] || alias[fa.X])
 				}
 				var probs []string
 				for _, in := range allInstrs(fn) {
